@@ -1617,10 +1617,13 @@ class Lib:
         s = a[0]
         if isinstance(s, str):
             return getattr(pat, kind)(s)
-        if kind != "fullmatch":
-            raise Unsupported("regex match/search on structural string")
         zs = STR.to_z3_string(I, s)
         rex = regex_to_z3(pat.pattern)
+        anything = z3.Star(z3.AllChar(z3.ReSort(z3.StringSort())))
+        if kind == "match":            # anchored at the start only
+            rex = z3.Concat(rex, anything)
+        elif kind == "search":
+            rex = z3.Concat(anything, rex, anything)
         c = z3.InRe(zs, rex)
         # result is used for truthiness only: model a match object as True / None
         if I.ctx.branch(c):
